@@ -59,7 +59,7 @@ func run(c *lib.Ctx) error {
 	}
 	c.Set("rule", "a case is one function (AST over tmp/set/defer/with/loop/call/try/exit); distinct by its rendered Elvish text; non-trivial = contains at least one tmp, with or defer")
 	size := c.Pick(2, 3)
-	c.Set("bounds", map[string]any{"MaxSize_nodes_exhaustive": size, "random_programs": c.Pick(500, 6000), "random_size": "4..16 nodes, nesting <= 5"})
+	c.Set("bounds", map[string]any{"MaxSize_nodes_exhaustive": size, "random_programs": c.Pick(300, 6000), "random_size": "4..16 nodes, nesting <= 5"})
 
 	// ---- M + G
 	r, err := c.TLC("MCCleanup", lib.TLCRun{Dir: dir, Module: "MCCleanup", Workers: 4, Timeout: 12 * time.Minute, HeapGB: 6,
@@ -124,7 +124,7 @@ func run(c *lib.Ctx) error {
 	progs = append(progs, Directed()...)
 	nd := len(progs)
 	rng := newRand(c.Seed)
-	for i := 0; i < c.Pick(500, 6000); i++ {
+	for i := 0; i < c.Pick(300, 6000); i++ {
 		progs = append(progs, Label(RandomProg(rng)))
 	}
 	vc := make([]vCase, len(progs))
